@@ -685,6 +685,11 @@ def run_bounded(rep: Report, tier: str) -> None:
         if nrep >= MAX_VIOLATIONS:
             break
     rep.extra["failing_cases_total"] = len(viols)
+    classes = {}
+    for sig, case, msg in viols:
+        k = f"{case.get('api', case['kind'])}/{case.get('form', '')}: {msg.split(' (')[0][:80]}"
+        classes[k] = classes.get(k, 0) + 1
+    rep.extra["failing_classes"] = classes
     rep.explanation += (
         "Differential against numpy.einsum on exact integer-valued arrays (values and shapes must be equal), for the "
         "string form, the interleaved form (monotone and non-monotone integer labels, Ellipsis), einsum_tree().contract, "
